@@ -941,18 +941,25 @@ pub fn run(args: &Args) {
         }
     }
     // 2. enumerated schedules of fixed programs at every level
-    let per_prog = if args.thorough { 60000 } else { 500 };
+    let total_coq = cx.coq_budget;
+    cx.coq_budget = total_coq * 5 / 12;
+    let per_prog = if args.thorough { 15000 } else { 1500 };
     for (name, progs, bound) in fixed_programs() {
         for level in [3u8, 4, 2, 1, 0] {
             let bound = match (bound, args.thorough) { (Some(b), true) => Some(b + 1), (b, _) => b };
-            let n = cx.explore(level, &progs, bound, per_prog, if args.thorough { 40 } else { 25 });
+            let n = cx.explore(level, &progs, bound, per_prog, if args.thorough { 40 } else { 30 });
             cx.sum.dist_max(&format!("schedules[{}]L{}", name, level), n as u64);
         }
     }
     cx.sum.sample(json!({"kind": "enumerated schedules", "programs": fixed_programs().iter().map(|x| x.0).collect::<Vec<_>>()}));
     // 3. random programs, random schedules
-    let nrand = if args.thorough { 60000 } else { 2000 };
+    cx.coq_budget = total_coq * 9 / 12;
+    let nrand = if args.thorough { 400000 } else { 8000 };
+    // the random phases also stop on a wall-clock budget (every case is still derived from the seed
+    // in order, so a failing case replays from its replay file whatever the machine speed was)
+    let (t_rand, t_seq) = if args.thorough { (1000u64, 1300u64) } else { (70u64, 95u64) };
     for k in 0..nrand {
+        if t0.elapsed().as_secs() > t_rand { cx.sum.dist("random_phase_cut_by_time"); break; }
         let mut r = Rng::new(cx.rng.next());
         let level = *r.pick(&[3u8, 3, 3, 4, 4, 2, 1, 0]);
         let nt = if r.chance(1, 3) { 3 } else { 2 };
@@ -960,16 +967,18 @@ pub fn run(args: &Args) {
         let progs: Vec<Vec<Op>> = (0..nt).map(|_| { let len = r.range(1, 4) as usize; rand_prog(&mut r, len, cache) }).collect();
         // switch probability per step: mostly rare switches (few pre-emptions), sometimes frantic
         let den = *r.pick(&[2u64, 4, 8, 8, 16]);
-        let o = cx.conc(level, &progs, Chooser::Random(Rng::new(r.next()), den), k % 6 == 0);
+        let o = cx.conc(level, &progs, Chooser::Random(Rng::new(r.next()), den), k % 10 == 0);
         if k < 3 { cx.sum.sample(json!({"kind": "random", "case": conc_case_json(level, &progs, &o.sched)})); }
     }
     // 4. sequential histories over several managers
-    let nseq = if args.thorough { 40000 } else { 1500 };
+    cx.coq_budget = total_coq;
+    let nseq = if args.thorough { 300000 } else { 5000 };
     for k in 0..nseq {
+        if t0.elapsed().as_secs() > t_seq { cx.sum.dist("sequential_phase_cut_by_time"); break; }
         let mut r = Rng::new(cx.rng.next());
         let ops = rand_seq(&mut r);
         let leave = r.chance(1, 4);
-        cx.seq(&ops, leave, k % 8 == 0);
+        cx.seq(&ops, leave, k % 10 == 0);
         if k < 2 { cx.sum.sample(seq_case_json(&ops, leave)); }
     }
     cx.sum.dist_max("controlled_runs", cx.runs);
